@@ -55,6 +55,7 @@ package kvql
 //@ func (o *ExpressionOptimizer) tryOptimizeBinaryOpExecute(e *BinaryOpExpr) (res Expression, isValue bool)
 //@   props C04
 //@   requires e != nil && e.Left != nil && e.Right != nil
+//@   requires wfnodes: forall r Ref :: is(r, *BinaryOpExpr) ==> as(r, *BinaryOpExpr).Left != nil && as(r, *BinaryOpExpr).Right != nil
 //@   assigns allof(BinaryOpExpr.Left), allof(BinaryOpExpr.Right), allof(FunctionCallExpr.Args), allof(FunctionCallExpr.Result), walkFlag
 //@   ensures[C04] nonnil: res != nil
 //@   ensures nonnilkept: forall r Ref :: (old(as(r, *BinaryOpExpr).Left) != nil ==> as(r, *BinaryOpExpr).Left != nil) && (old(as(r, *BinaryOpExpr).Right) != nil ==> as(r, *BinaryOpExpr).Right != nil)
